@@ -189,7 +189,7 @@ Definition load_step (m : mode) (en : env) (s : state) (p : bytes) : (outcome + 
       | Some key =>
         match blookup key (s_blobs s) with
         | Some v => (inr (add_local en v), s)
-        | None => (inr (add_local en (RVal VNone)), s)
+        | None => (inl (DdsErr "NONE"), s)
         end
       end
     end
